@@ -127,11 +127,12 @@ def arrays_equal(cfg, a, b):
 def gen_cfg(rng, small=True, modes=None):
     for _ in range(200):
         n, d = rng.choice([(1, 1), (100, 1), (200, 3), (10 ** 6, 3), (10 ** 8, 7), (25 * 10 ** 6, 3), (48000, 1),
-                           (1000, 7), (2 ** 31 - 1, 10 ** 9), (10, 1), (1000, 1)])
+                           (1000, 7), (2 ** 31 - 1, 10 ** 9), (10, 1), (1000, 1), (15, 1), (3, 1), (25, 1)])
         sc, fc = rng.choice([(1, 20), (2, 400), (3600, 1000), (1, 1), (10, 2500), (1, 1000), (3600, 60000), (1, 250),
                              (2, 100), (1, 5)])
         pf = fc * n // (1000 * d)
-        if not (2 <= pf <= (40 if small else 4000)):
+        # at least one sample per file (exactly one, and 1.x, included)
+        if not (1 <= pf <= (40 if small else 4000)) or fc * n < 1000 * d:
             continue
         t = rng.choice([315532800, 951782400, 1500000000, 1499999999, 1709164800, 2147483648, 4102444799,
                         rng.randrange(315532800, 4102444800)]) * 1000
